@@ -8,6 +8,8 @@ CONSTANT LCap = 100
 CONSTANT MaxN = 3
 CONSTANT ElfSizes = {0, 8, 39, 40, 41, 64, 72}
 CONSTANT ElfRots = {0, 3}
+CONSTANT MaxStr = 3
+CONSTANT StrKinds = {"cmdline", "bootloader", "module"}
 INVARIANT DesignAccepted
 INVARIANT DesignControlled
 INVARIANT Export
